@@ -277,7 +277,7 @@ func prefillBoundEqualsCap(op chanOp) bool {
 func ruleTerminationArms(c *Ctx, r *R) {
 	for _, rel := range []string{"stream"} {
 		for _, typ := range []string{"PipeSender", "pipeStream"} {
-			nt, _ := c.Pkgs[rel].Types.Scope().Lookup(typ).(*types.TypeName)
+			nt := c.lookupType(rel, typ)
 			if nt == nil {
 				r.undecided(rel+"."+typ+"|missing", token.NoPos, "type not found")
 				continue
@@ -287,7 +287,7 @@ func ruleTerminationArms(c *Ctx, r *R) {
 			for i := 0; i < st.NumFields(); i++ {
 				f := st.Field(i)
 				if ch, ok := f.Type().Underlying().(*types.Chan); ok && chanElemIsEmptyStruct(f.Type()) && ch.Dir() != types.SendOnly {
-					termFields = append(termFields, f.Name())
+					termFields = append(termFields, canonField(nt.Type(), f.Name()))
 				}
 			}
 			meths := c.methodsOf(rel, typ)
